@@ -16,7 +16,7 @@
 (* printed as a CASE line, which the harness replays through the real code *)
 (* and Trace_Ledger validates - the same rows, the same operators.         *)
 (***************************************************************************)
-EXTENDS Ledger, Tx, Json
+EXTENDS Templates
 
 CONSTANTS Templates,   \* set of row templates (see T below)
           Gaps,        \* set of settlement-day gaps between consecutive rows
@@ -31,48 +31,6 @@ VARIABLES hist,    \* composed rows (templates with their settlement day)
           i, S, A, flagged, last   \* ledger position, state, cash-flow accumulators, over-applied seen, last step
 
 vars == <<hist, open, phase, i, S, A, flagged, last>>
-
-P(x) == RDec(x[1], x[2])                \* <<mantissa, scale>> -> Rat
-
-(***************************************************************************)
-(* Row templates.  Numbers are <<mantissa, scale>> pairs so that the same  *)
-(* value can be handed to the real code as a decimal.  afc is the          *)
-(* affiliate cell as a user writes it; AfId/AfReg give its meaning.        *)
-(***************************************************************************)
-AfId(c)  == CASE c = "" -> "default" [] c = "Default" -> "default" [] c = "Spouse" -> "spouse"
-              [] c = "(R)" -> "default (R)" [] c = "Spouse (R)" -> "spouse (R)" [] c = "Kid" -> "kid"
-AfReg(c) == c \in {"(R)", "Spouse (R)"}
-
-Z == <<0, 0>>
-One == <<1, 0>>
-T(act, afc, q, p, c, cur, r, ccur, rc, sflc, sflv, force, splitc, post, pre, intOnly) ==
-  [act |-> act, afc |-> afc, q |-> q, p |-> p, c |-> c, cur |-> cur, r |-> r, ccur |-> ccur, rc |-> rc,
-   sflc |-> sflc, sflv |-> sflv, force |-> force, splitc |-> splitc, post |-> post, pre |-> pre,
-   intOnly |-> intOnly, tdoff |-> 0]
-\* the same row traded k days before it settles
-Traded(t, k) == [t EXCEPT !.tdoff = k]
-TBuy(afc, q, p, c)            == T("Buy", afc, q, p, c, "", One, "", One, "", Z, FALSE, "", One, One, FALSE)
-TSell(afc, q, p, c)           == T("Sell", afc, q, p, c, "", One, "", One, "", Z, FALSE, "", One, One, FALSE)
-TBuyFx(afc, q, p, c, cur, r, ccur, rc)  == T("Buy", afc, q, p, c, cur, r, ccur, rc, "", Z, FALSE, "", One, One, FALSE)
-TSellFx(afc, q, p, c, cur, r, ccur, rc) == T("Sell", afc, q, p, c, cur, r, ccur, rc, "", Z, FALSE, "", One, One, FALSE)
-TSellSfl(afc, q, p, sflc, sflv, force)  == T("Sell", afc, q, p, Z, "", One, "", One, sflc, sflv, force, "", One, One, FALSE)
-TRoc(afc, p)                  == T("RoC", afc, Z, p, Z, "", One, "", One, "", Z, FALSE, "", One, One, FALSE)
-TSfla(afc, q, p)              == T("SfLA", afc, q, p, Z, "", One, "", One, "", Z, FALSE, "", One, One, FALSE)
-\* afc = "*" : the split names no affiliate (applies to all)
-TSplit(afc, splitc, post, pre, intOnly) == T("Split", afc, Z, Z, Z, "", One, "", One, "", Z, FALSE, splitc, post, pre, intOnly)
-
-NormAct(a) == CASE a = "RoC" -> "Roc" [] a = "SfLA" -> "Sfla" [] OTHER -> a
-BaseDay == 18300
-MkRow(h, idx) ==
-  LET t == h.t
-      glob == t.act = "Split" /\ t.afc = "*"
-      rate == IF t.cur \in {"", "CAD"} THEN ROne ELSE P(t.r)
-  IN  [act |-> NormAct(t.act), af |-> IF glob THEN GlobalAf ELSE AfId(t.afc), sd |-> h.sd, td |-> h.sd - t.tdoff, idx |-> idx,
-       q |-> P(t.q), p |-> P(t.p), c |-> P(t.c), r |-> rate,
-       rc |-> IF t.ccur = "" THEN rate ELSE IF t.ccur = "CAD" THEN ROne ELSE P(t.rc),
-       hasSfl |-> t.sflc # "", sflv |-> P(t.sflv), force |-> t.force,
-       post |-> P(t.post), pre |-> P(t.pre), intOnly |-> t.intOnly, grp |-> FALSE]
-RowsOf(hs) == [n \in DOMAIN hs |-> MkRow(hs[n], n - 1)]
 
 AFS == {"default"} \cup { AfId(t.afc) : t \in { t \in Templates : t.afc # "*" } }
 REG == [a \in AFS |-> \E t \in Templates : t.afc # "*" /\ AfId(t.afc) = a /\ AfReg(t.afc)]
@@ -243,14 +201,6 @@ InvSplitNeutral ==
 (***************************************************************************)
 (* Emission of completed histories as cases for the conformance harness.   *)
 (***************************************************************************)
-CaseRow(h) ==
-  LET t == h.t IN
-  [sec |-> "FOO", td |-> h.sd - t.tdoff, sd |-> h.sd, act |-> t.act, af |-> IF t.afc = "*" THEN "" ELSE t.afc,
-   q |-> IF t.act \in {"RoC", "Split"} THEN "" ELSE t.q, p |-> IF t.act = "Split" THEN "" ELSE t.p,
-   c |-> IF t.act \in {"Buy", "Sell"} THEN t.c ELSE "",
-   cur |-> t.cur, r |-> IF t.cur \in {"", "CAD"} THEN "" ELSE t.r,
-   ccur |-> t.ccur, rc |-> IF t.ccur \in {"", "CAD"} THEN "" ELSE t.rc,
-   sfl |-> t.sflc, split |-> t.splitc, memo |-> ""]
 CaseOf ==
   [id |-> CaseTag, files |-> <<[n \in DOMAIN hist |-> CaseRow(hist[n])]>>,
    opening |-> IF open = <<>> THEN [x \in {} |-> 0] ELSE [FOO |-> <<open[1], open[2]>>],
